@@ -19,6 +19,12 @@ let show (l : int list) : string =
 let shown (l : n list) : string = show (List.map int_of_n l)
 let b2i b = if b then 1 else 0
 
+let showopts (l : n option list) : string =
+  String.concat "," (List.map (function None -> "P" | Some x -> string_of_int (int_of_n x)) l)
+(* outcome: Ok -> "ok <v>", Err -> "err <e>", Panic -> "panic" *)
+let show_out (f : 'a -> string) (o : (unit, 'a) outcome) : string =
+  match o with Ok v -> "ok " ^ f v | Err _ -> "err" | Panic _ -> "panic"
+
 let sym_of (i : int) = match ss_of_index (n_of_int i) with Some s -> s | None -> failwith "bad symbol index"
 
 let dispatch (op : string) (a : string array) : string =
@@ -32,6 +38,12 @@ let dispatch (op : string) (a : string array) : string =
     Printf.sprintf "%s %s %d %d %s %s" (shown els) (shown cont) (int_of_n emp) (int_of_n mc)
       (match ff with None -> "N" | Some s -> "S" ^ string_of_int (int_of_n s))
       (match ul with None -> "N" | Some s -> "S" ^ string_of_int (int_of_n s))
+  | "rs_encode" -> show_out shown (d_rs_encode (sym_of (int_of_string a.(0))) (nlist a.(1)))
+  | "gf_mulrow" -> let (m, ad) = d_gf_mulrow (n_of_int (int_of_string a.(0))) in shown m ^ " " ^ shown ad
+  | "gf_divrow" -> showopts (d_gf_divrow (n_of_int (int_of_string a.(0))))
+  | "gf_misc" -> let (l, p) = d_gf_misc in showopts l ^ " " ^ showopts p
+  | "generator" -> (match d_generator (n_of_int (int_of_string a.(0))) with Some g -> "ok " ^ shown g | None -> "panic")
+  | "spec_gmulrow" -> shown (d_spec_gmulrow (n_of_int (int_of_string a.(0))))
   | _ -> "unknown-op " ^ op
 
 let () =
